@@ -1,6 +1,7 @@
 package main
 
 import (
+	"encoding/hex"
 	"fmt"
 	"math/rand"
 	"strings"
@@ -516,9 +517,111 @@ func randomSeq(r *rand.Rand) []string {
 	return append(seq, settle(nsess)...)
 }
 
-func generate(r *rand.Rand, tier string, emit func([]string)) {
+// ---------------------------------------------------------------------------------------------
+// Concrete session ids.  The model treats Acct-Session-Ids as opaque; the CODE turns them into file names
+// (sessions/<id>.json, <file>.tmp), record ids (<id>-<status>-<nanos>) and map keys.  Every sequence is run with
+// one of the following assignments of concrete ids to the tags s1..s9 (`ids=` on its `new` line), drawn from the
+// PRNG: ids that are proper prefixes of one another (both directions), an id that is another id plus the suffixes
+// the persistence layer appends (.json, .tmp, .json.tmp), glob metacharacters, ids that differ only in case, path
+// separators and dot segments, percent signs (the escape character of the file names), spaces / UTF-8 / JSON
+// specials, and record-id look-alikes (<id>-2-<digits>).
+var idSchemes = map[string][]string{
+	"prefix-up":   {"sub-1", "sub-10", "sub-100", "sub-1000", "sub-10000", "sub-", "sub", "su", "s"},
+	"prefix-down": {"sub-1000", "sub-100", "sub-10", "sub-1", "sub-", "sub", "su", "s", "sub-10000"},
+	"suffix-up":   {"sub-1", "sub-1.json", "sub-1.json.json", "sub-1.json.tmp", "sub-1.tmp", "sub-1.", "sub-1.j", "sub-1.json.tmp.json", "sub-1.tmp.json"},
+	"suffix-down": {"sub-1.json.json", "sub-1.json", "sub-1", "sub-1.tmp", "sub-1.json.tmp", "sub-1.tmp.json", ".json", ".tmp", "json"},
+	"glob":        {"sub-*", "sub-1", "sub-?", "sub-[12]", "*", "?", "[a-z]*", "sub-\\*", "sub-12"},
+	"glob-rev":    {"sub-1", "sub-*", "sub-[0-9]", "sub-?", "sub-2", "s*", "*.json", "sub-1*", "{sub-1,sub-2}"},
+	"case":        {"Sub-1", "sub-1", "SUB-1", "sUb-1", "suB-1", "sub-1A", "sub-1a", "SUB-1a", "Sub-1A"},
+	"path":        {"a/b", "a", "a/b/c", "../x", "../pending", "..", ".", "/abs", "a/../b"},
+	"path-rev":    {"a", "a/b", "../../y", "sessions/a", "./a", "a/", "a//b", "../sessions/a", "..."},
+	"percent":     {"a/b", "a%2Fb", "a%252Fb", "%", "%2", "%2F", "a%2fb", "a%", "%%"},
+	"text":        {"sub 1", "sub\t1", "sub-\u00e9", "sub-<1>&\"q\"", "sub,1", "sub:1", "sub|1", "sub=1", " "},
+	"recid":       {"sub-1", "sub-1-2", "sub-1-2-1", "sub-1-1", "sub-1-2-", "1", "2", "-2-", "-"},
+}
+
+var schemeNames = []string{"plain", "prefix-up", "prefix-down", "suffix-up", "suffix-down", "glob", "glob-rev", "case",
+	"path", "path-rev", "percent", "text", "recid"}
+
+// idsToken renders a scheme as the `ids=` token of a `new` line ("" for the plain scheme: the tags themselves)
+func idsToken(scheme string) string {
+	ids, ok := idSchemes[scheme]
+	if !ok {
+		return ""
+	}
+	var hs []string
+	for _, id := range ids {
+		hs = append(hs, hex.EncodeToString([]byte(id)))
+	}
+	return " ids=" + strings.Join(hs, ",")
+}
+
+func withScheme(seq []string, scheme string) []string {
+	out := append([]string(nil), seq...)
+	out[0] += idsToken(scheme)
+	return out
+}
+
+// prefixFamily: two sessions whose ids are related (s1 = shorter / pattern, s2 = longer / matched, and the reverse
+// assignment in the -down / -rev schemes), one of them stopped and ACKNOWLEDGED by each of the three paths (the
+// StopSession call itself, the queued record delivered from the channel, delivered by the retry tick) while the
+// other is still active, then a crash (or any other ending), a restart and a settle phase: the other session's
+// file must still be there and its Stop must be delivered by the recovery.
+func prefixFamily(s *sink, core bool) {
+	for _, scheme := range schemeNames {
+		for _, x := range [][2]int{{1, 2}, {2, 1}} {
+			a, b := x[0], x[1]
+			for _, ack := range [][]string{{"stop s%d 1 u"}, {"stop s%d 1 d", "deq u"}, {"stop s%d 1 d", "retry u"},
+				{"stop s%d 1 l", "retry u"}} {
+				main := []string{"new 3 8", "start s1 i1 u", "start s2 i2 u"}
+				if a == 2 {
+					main = []string{"new 3 8", "start s2 i2 u", "start s1 i1 u"}
+				}
+				for _, o := range ack {
+					if strings.Contains(o, "%d") {
+						o = fmt.Sprintf(o, a)
+					}
+					main = append(main, o)
+				}
+				if core {
+					t := append(append([]string(nil), main...), "crash", "restart uu")
+					s.emit(withScheme(append(t, settle(2)...), scheme))
+					continue
+				}
+				// the other session goes on: interim update, a third session with a related id comes and goes
+				for _, more := range [][]string{nil, {fmt.Sprintf("interim s%d u", b)},
+					{"start s3 i3 u", "stop s3 3 u"}, {"start s3 i3 u", fmt.Sprintf("stop s%d 2 u", b)}} {
+					m := append(append([]string(nil), main...), more...)
+					endings(m, 2, func(pre []string, dead bool) {
+						for _, t := range tails(2, 2, dead, false) {
+							if s.keep >= 1 || s.r.Float64() < s.keep {
+								s.n++
+								s.emit(withScheme(append(append([]string(nil), pre...), t...), scheme))
+							}
+						}
+					})
+				}
+			}
+		}
+	}
+}
+
+func generate(r *rand.Rand, tier string, emit0 func([]string)) {
 	thorough := tier == "thorough"
+	// every generated sequence runs under an id scheme drawn from the PRNG (a `new` line that already names its
+	// ids keeps them)
+	emit := func(seq []string) {
+		if len(seq) > 0 && !strings.Contains(seq[0], " ids=") {
+			seq = withScheme(seq, schemeNames[r.Intn(len(schemeNames))])
+		}
+		emit0(seq)
+	}
 	s := &sink{r: r, keep: 1, emit: emit}
+	// the witnesses once with the tags as ids, as recorded
+	for _, w := range witnesses {
+		emit0(w)
+	}
+	prefixFamily(s, true)
 	// witnesses of the recorded findings, always
 	for _, w := range witnesses {
 		emit(w)
@@ -532,6 +635,7 @@ func generate(r *rand.Rand, tier string, emit func([]string)) {
 		exhaustiveOverlap(s)
 		exhaustive2(s)
 		exhaustive3(s)
+		prefixFamily(s, false)
 		counters(s, r, 4000)
 		for i := 0; i < 30000; i++ {
 			emit(randomSeq(r))
@@ -554,6 +658,8 @@ func generate(r *rand.Rand, tier string, emit func([]string)) {
 	exhaustive2(s)
 	s.keep = 0.02
 	exhaustive3(s)
+	s.keep = 0.004
+	prefixFamily(s, false)
 	counters(s, r, 100)
 	for i := 0; i < 800; i++ {
 		emit(randomSeq(r))
